@@ -22,7 +22,8 @@
 (***************************************************************************)
 EXTENDS Integers, TLC, Json
 
-CONSTANTS MaxN,        \* largest size
+CONSTANTS BigSizes,    \* sizes beyond LAPACK's small-problem thresholds (workspace / block size 32, 64): see GeqrfBig
+          MaxN,        \* largest size
           PotrfTypes   \* subset of {"s", "d", "c", "z"}
 
 PotrfCases ==
@@ -37,13 +38,21 @@ GeqrfCases ==
   [rt : {"geqrf"}, dt : {"d"}, orient : {"row", "col"}, pad : {0, 1}, m : 1..MaxN, n : 1..MaxN,
    uplo : {"-"}, plant : {-1}, form : {"inplace"}, uvor : {"row"}, uvpad : {0}]
 
+(* long and thin / short and wide operands: one size beyond the thresholds at which LAPACK (and any shortcut in front of it)   *)
+(* switches algorithm or workspace; the monitor demands acceptance and the frame for them, not the reconstruction (its       *)
+(* fixed-point bounds are made for sizes <= 6)                                                                                *)
+GeqrfBig ==
+  {c \in [rt : {"geqrf"}, dt : {"d"}, orient : {"row", "col"}, pad : {0, 1}, m : BigSizes \cup {1, 3}, n : BigSizes \cup {1, 3},
+          uplo : {"-"}, plant : {-1}, form : {"inplace"}, uvor : {"row"}, uvpad : {0}] :
+     (c.m \in BigSizes) # (c.n \in BigSizes)}
+
 GesvdCases ==
   {c \in [rt : {"gesvd"}, dt : {"d"}, orient : {"row", "col"}, pad : {0, 1}, m : 1..MaxN, n : 1..MaxN,
           uplo : {"-"}, plant : {-1}, form : {"inplace", "copy"}, uvor : {"row", "col"}, uvpad : {0, 1}] :
      /\ c.form = "copy" => (c.orient = "row" /\ c.pad = 0 /\ c.uvor = "row" /\ c.uvpad = 0)   \* gesvd(A const&) takes owning arrays only
      /\ c.uvor = "col" => (c.orient = "row" /\ c.pad = 0)}                                    \* transposed U/VT: only against the plain A
 
-Cases == PotrfCases \cup GeqrfCases \cup GesvdCases
+Cases == PotrfCases \cup GeqrfCases \cup GeqrfBig \cup GesvdCases
 
 VARIABLE c
 GInit == c \in Cases
